@@ -510,6 +510,9 @@ class _Subst(ast.NodeTransformer):
         return node
 
     def visit_Lambda(self, node):
+        params = {a.arg for a in node.args.posonlyargs + node.args.args + node.args.kwonlyargs}
+        inner = _Subst({k: v for k, v in self.env.items() if k not in params})
+        node.body = inner.visit(node.body)
         return node
 
 
@@ -536,6 +539,9 @@ class PathResult:
         self.effects = []           # non-noise expression statements / opaque statements executed on the path
         self.tests = []             # (test node, truth) decided on the path
         self.fell_off = False
+        self.updates = []           # keyed stores into containers: dict(kind='storeall'|'incall'|'store1'|'inc1', target, over, key, value, node), expressions substituted
+        self.unknown_test = None    # the undecided test expression (of an if statement or a conditional expression)
+        self.assumed = []           # (test with the path's assignments substituted, assumed truth) for tests forked on
         self.env_at_stop = None     # environment at the statement that contains `stop_at`
         self.stopped = None
         self.env = None
@@ -617,7 +623,10 @@ class PathEval:
             except (KeyError, TypeError):
                 pass
         if self.other is not None:
-            return self.other(t, self)
+            v = self.other(t, self)
+            if v is not None:
+                self.res.assumed.append((self.subst(t), v))
+            return v
         return None
 
     # -- statements ----------------------------------------------------------
@@ -695,6 +704,27 @@ class PathEval:
         self.env = outer
         return False
 
+    def _store_loop(self, s: ast.For) -> bool:
+        """for T in IT: D[T] = V   /   for T in IT: D[T] += V     (V does not depend on T)  ->  one keyed update of D over IT"""
+        if not isinstance(s.target, ast.Name):
+            return False
+        body = [b for b in s.body if not is_noise_stmt(b)]
+        if len(body) != 1:
+            return False
+        b = body[0]
+        t = s.target.id
+        if isinstance(b, ast.Assign) and len(b.targets) == 1 and isinstance(b.targets[0], ast.Subscript):
+            sub, val, kind, op = b.targets[0], b.value, 'storeall', None
+        elif isinstance(b, ast.AugAssign) and isinstance(b.target, ast.Subscript):
+            sub, val, kind, op = b.target, b.value, 'incall', type(b.op).__name__
+        else:
+            return False
+        if not (isinstance(sub.slice, ast.Name) and sub.slice.id == t) or any(isinstance(x, ast.Name) and x.id == t for x in ast.walk(val)) or any(isinstance(x, ast.Name) and x.id == t for x in ast.walk(sub.value)):
+            return False
+        self.res.updates.append(dict(kind=kind, target=self.subst(sub.value), over=self.subst(s.iter), key=None, value=self.subst(val), op=op, node=s))
+        self.env[t] = None
+        return True
+
     def run(self) -> PathResult:
         self.res = PathResult()
         self.res.env = self.env
@@ -706,50 +736,76 @@ class PathEval:
     def block(self, body) -> bool:
         """True when the path ended (return / raise / unknown)"""
         for s in body:
+            self.seq = getattr(self, 'seq', 0) + 1
+            nup = len(self.res.updates)
+            try:
+                r = self._stmt(s)
+            finally:
+                for u in self.res.updates[nup:]:
+                    u.setdefault('seq', self.seq)
+            if r == 'end':
+                return True
+        return False
+
+    def _stmt(self, s):
+        """'end' when the path ended at s"""
+        for s in [s]:
             if self.stop_at is not None and any(x is self.stop_at for x in ast.walk(s)) and not isinstance(s, (ast.With, ast.If)):
                 self.res.env_at_stop = dict(self.env)
                 self.res.stopped = s
-                return True
+                return 'end'
             if is_noise_stmt(s) or isinstance(s, (ast.Pass, ast.Import, ast.ImportFrom, ast.Global, ast.Nonlocal)):
-                continue
+                return None
             if isinstance(s, (ast.FunctionDef, ast.AsyncFunctionDef)):
                 self.local_funcs[s.name] = s
                 self.env[s.name] = None
-                continue
+                return None
             if isinstance(s, ast.With):
                 for it in s.items:
                     if isinstance(it.optional_vars, ast.Name):
                         self.env[it.optional_vars.id] = self.subst(it.context_expr)
                 if self.block(s.body):
-                    return True
-                continue
+                    return 'end'
+                return None
             if isinstance(s, ast.For) and not s.orelse and self._append_loop(s):
-                continue
+                return None
             if isinstance(s, ast.Return):
                 self.res.returned = self.subst(s.value) if s.value is not None else ast.Constant(None)
-                return True
+                return 'end'
             if isinstance(s, ast.Raise):
                 self.res.raised = s
-                return True
+                return 'end'
             if isinstance(s, ast.If):
                 v = self.truth(s.test)
                 if v is None and self.other is not None:
                     v = self.other(s.test, self)
+                    if v is not None:
+                        self.res.assumed.append((self.subst(s.test), v))
                 if v is None:
-                    self.res.unknown = s
-                    return True
+                    self.res.unknown, self.res.unknown_test = s, s.test
+                    return 'end'
                 self.res.tests.append((s.test, v))
                 if self.block(s.body if v else s.orelse):
-                    return True
-                continue
+                    return 'end'
+                return None
             if isinstance(s, (ast.Assign, ast.AnnAssign)) and (isinstance(s, ast.AnnAssign) or len(s.targets) == 1):
                 tgt = s.target if isinstance(s, ast.AnnAssign) else s.targets[0]
                 if s.value is None:
-                    continue
+                    return None
                 val = self.subst(s.value)
+                if isinstance(s.value, ast.IfExp):
+                    v = self.truth(s.value.test)
+                    if v is None:
+                        self.res.unknown, self.res.unknown_test = s, s.value.test
+                        return 'end'
+                    val = self.subst(s.value.body if v else s.value.orelse)
                 if isinstance(tgt, ast.Name):
+                    val._seq = self.seq
                     self.env[tgt.id] = val
-                    continue
+                    return None
+                if isinstance(tgt, ast.Subscript):
+                    self.res.updates.append(dict(kind='store1', target=self.subst(tgt.value), over=None, key=self.subst(tgt.slice), value=val, node=s))
+                    return None
                 if isinstance(tgt, ast.Tuple) and all(isinstance(x, ast.Name) for x in tgt.elts):
                     if isinstance(val, ast.Tuple) and len(val.elts) == len(tgt.elts):
                         for x, v in zip(tgt.elts, val.elts):
@@ -757,16 +813,30 @@ class PathEval:
                     else:
                         for i, x in enumerate(tgt.elts):
                             self.env[x.id] = ast.fix_missing_locations(ast.Subscript(value=copy.deepcopy(val), slice=ast.Constant(i), ctx=ast.Load()))
-                    continue
+                    return None
                 self.res.effects.append(s)
-                continue
+                return None
+            if isinstance(s, ast.AugAssign) and isinstance(s.target, ast.Subscript):
+                self.res.updates.append(dict(kind='inc1', target=self.subst(s.target.value), over=None, key=self.subst(s.target.slice), value=self.subst(s.value), op=type(s.op).__name__, node=s))
+                return None
+            if isinstance(s, ast.Expr) and isinstance(s.value, ast.Call) and isinstance(s.value.func, ast.Attribute) and s.value.func.attr == 'update' and len(s.value.args) == 1 and not s.value.keywords:
+                a0 = s.value.args[0]
+                if isinstance(a0, ast.Call) and isinstance(a0.func, ast.Attribute) and a0.func.attr == 'fromkeys' and isinstance(a0.func.value, ast.Name) and a0.func.value.id == 'dict' and 1 <= len(a0.args) <= 2:
+                    self.res.updates.append(dict(kind='storeall', target=self.subst(s.value.func.value), over=self.subst(a0.args[0]), key=None, value=self.subst(a0.args[1]) if len(a0.args) == 2 else ast.Constant(None), node=s))
+                    return None
+                if isinstance(a0, ast.DictComp) and len(a0.generators) == 1 and not a0.generators[0].ifs and isinstance(a0.generators[0].target, ast.Name) and isinstance(a0.key, ast.Name) and a0.key.id == a0.generators[0].target.id \
+                        and not any(isinstance(x, ast.Name) and x.id == a0.key.id for x in ast.walk(a0.value)):
+                    self.res.updates.append(dict(kind='storeall', target=self.subst(s.value.func.value), over=self.subst(a0.generators[0].iter), key=None, value=self.subst(a0.value), node=s))
+                    return None
+            if isinstance(s, ast.For) and not s.orelse and self._store_loop(s):
+                return None
             if isinstance(s, ast.AugAssign) and isinstance(s.target, ast.Name):
                 cur = self.env.get(s.target.id) or ast.Name(s.target.id, ast.Load())
                 self.env[s.target.id] = ast.fix_missing_locations(ast.BinOp(left=copy.deepcopy(cur), op=s.op, right=self.subst(s.value)))
-                continue
+                return None
             if isinstance(s, ast.Expr):
                 self.res.effects.append(s)
-                continue
+                return None
             # loops / with / try / anything else: opaque; names bound inside are unknown afterwards
             self.res.effects.append(s)
             for x in ast.walk(s):
@@ -774,8 +844,8 @@ class PathEval:
                     self.env[x.id] = None
                 if isinstance(x, ast.Return):
                     self.res.unknown = s
-                    return True
-        return False
+                    return 'end'
+        return None
 
 
 def run_paths(fn: Func, subject_pred, value: str, max_forks: int = 3):
@@ -792,9 +862,9 @@ def run_paths(fn: Func, subject_pred, value: str, max_forks: int = 3):
         def other(t, pe, table=table):
             return table.get(id(t))
         res = PathEval(fn, subject_pred, value, other).run()
-        if res.unknown is not None and isinstance(res.unknown, ast.If) and id(res.unknown.test) not in table:
-            todo.append(assume + [(res.unknown.test, True)])
-            todo.append(assume + [(res.unknown.test, False)])
+        if res.unknown is not None and res.unknown_test is not None and id(res.unknown_test) not in table:
+            todo.append(assume + [(res.unknown_test, True)])
+            todo.append(assume + [(res.unknown_test, False)])
             continue
         out.append((assume, res))
     return out
